@@ -384,13 +384,30 @@ def tasks(tier):
             UserInfoInvariantTask(), UserInfoSitesTask()] + _send_tasks()
 
 
+# "Every A-ASSOCIATE-AC it sends has one result item per proposed context and an accepted transfer syntax on every accepted
+# item": send_accept puts accepted + rejected contexts (all results of the negotiation) into the AC; that the negotiation
+# functions return exactly one result per proposed context, carrying its id, with one transfer syntax, is C10's obligation -
+# re-proved under this id (only those obligations; C10's role obligations and its open findings are not part of this claim)
+RELABEL = {"C10/": "C12/ac-results:"}
+RELABEL_ONLY = {"C10/": r"one-result-per-proposed-context|exactly-one-result-per|result-carries-the-proposed-id|"
+                        r"results-are-all-per-context-results|partition:every-proposed-context|accepted-with-the-first-proposed-transfer-syntax|"
+                        r"accepted-only-after-a-common-transfer-syntax|rejected-context-echoes-the-first-proposed-transfer-syntax|"
+                        r"result-is-0-1-3-or-4|accepted-contexts-are-exactly-those-with-result-0"}
+
+
 def _send_tasks():
     from contracts.acse_neg import SendAssociateTask
-    return [SendAssociateTask("request", "C12/"), SendAssociateTask("accept", "C12/")]
+    from contracts import negotiation as N
+    from contracts.acse_neg import AcceptorSiteTask
+    return [SendAssociateTask("request", "C12/"), SendAssociateTask("accept", "C12/"),
+            N.NegAcceptorTask("C10/"), N.NegUnrestrictedTask("C10/"), AcceptorSiteTask("C10/")]
 
 
 def replay(rec):
     from pyvc.replay import run_replay
+    oid = rec.get("id", "")
+    if oid.startswith("C12/ac-results:"):
+        return run_replay("C10", dict(rec, id="C10/" + oid[len("C12/ac-results:"):]))
     return run_replay("C12", rec)
 
 
